@@ -30,6 +30,17 @@ def replay(prop, path):
     spec = pipeline.SPECS[prop]
     from .. import kf
 
+    # the probes that run beside the program in the check itself (their findings are replayable, too)
+    import collections
+    import types
+
+    stub = types.SimpleNamespace(counters=collections.Counter())
+    if prop == "C09":
+        pipeline.name_probe(stub, prog, out)
+    if prop in ("C10", "C11"):
+        pipeline.print_probe(stub, prog, out, prop)
+    if stub.counters:
+        print("probe counters:", dict(stub.counters))
     entries = kf.load()
     bad = []
     for f in out.findings:
